@@ -73,6 +73,12 @@ func c04Shared() *modelCheck {
 		return h
 	}, Menu: c15Menu()[:12], WithEnv: true, NAppend: 1, MaxD: 1, MaxDTh: 2})
 	fams[len(fams)-1].Restarts = []int64{4, 6}
+	// the block proposer itself sends contract transactions (deployment, calls) and native ones, in its own and in other
+	// validators' blocks (proposer slot of every block)
+	fams = append(fams, family{Name: "nonces/proposer-sends-contract-transactions", Base: func() sim.History { return c16History(genesis3()) },
+		Menu: []sim.TxSpec{deploy("V0", counterInit, "0"), call("V0", "contract:0", "", "0"), call("V0", "contract:0", "", "1R"), deploy("V1", counterInit, "0"),
+			call("V1", "contract:0", "", "0"), tr("V0", "U0", "1"), tr("V0", "contract:0", "0"), setdoc("V0", "v", "u")},
+		WithEnv: true, NAppend: 2, MaxD: 2, MaxDTh: 2, Core: coreAppend(blocksSet(1, 2, 4, 5), 8, 1), Restarts: []int64{}})
 	return &modelCheck{id: "C04", owners: map[string]bool{"C04": true}, families: fams}
 }
 
@@ -81,7 +87,7 @@ func init() { engine.Register("C04", func() engine.Check { return &c04{} }) }
 func (c *c04) ID() string { return "C04" }
 func (c *c04) Meta() engine.Meta {
 	m := modelMeta("exhaustive enumeration of delivery sequences of concrete signed transactions (with repetition, every block cut) on the real application, reference model + at-most-once oracle",
-		"C04: two senders, 14 CONCRETE signed transactions (fixed nonce and time stamp, hence identical bytes whenever delivered): transfers with nonce 0/1/2, a second sender's transfers, a contract deployment with nonce 0/1, calls of the deployed contract with nonce 1/2, a plain transfer to the contract address, setdoc with nonce 0/1, setdoc ADDRESSED to the contract account with nonce 1/2; ALL sequences with repetition of length 3 (quick) / 4 (thorough), each cut into blocks at every possible place, after a 2-block warm-up; plus EVM-interplay cases: every gadget program up to length 2 of C17's alphabet in a history where an account takes part in a contract transaction, then sends native transactions (one of them a replay), then is first touched inside a reverting inner call frame; plus the shared history families and a governance/unstaking history (all eight transaction types by senders that are and are not the block proposer, every single deviation; the governance/unstaking history also with one restart after height 4 or 6). "+
+		"C04: two senders, 14 CONCRETE signed transactions (fixed nonce and time stamp, hence identical bytes whenever delivered): transfers with nonce 0/1/2, a second sender's transfers, a contract deployment with nonce 0/1, calls of the deployed contract with nonce 1/2, a plain transfer to the contract address, setdoc with nonce 0/1, setdoc ADDRESSED to the contract account with nonce 1/2; ALL sequences with repetition of length 3 (quick) / 4 (thorough), each cut into blocks at every possible place, after a 2-block warm-up; plus EVM-interplay cases: every gadget program up to length 2 of C17's alphabet in a history where an account takes part in a contract transaction, then sends native transactions (one of them a replay), then is first touched inside a reverting inner call frame; plus the shared history families and a governance/unstaking history (all eight transaction types by senders that are and are not the block proposer, every single deviation; the governance/unstaking history also with one restart after height 4 or 6; a family in which the block proposer itself sends contract and native transactions, up to two per block, D<=2). "+
 			"Oracle: success => tx nonce == account nonce before (model); after success nonce +1, after failure unchanged (state comparison at every height, native and EVM write-back paths alike); every signed transaction (by its hash) succeeds at most once over the whole history.")
 	m.LevelName = "length of the delivery sequence"
 	return m
